@@ -1684,3 +1684,77 @@ func init() {
 		}
 	})
 }
+
+// ---- the result of a search is tested against "not found", not against position 0 (C06.18) ----
+//
+// idx := bytes.IndexByte(data, 0): idx >= 0 (or != -1, > -1) means found. idx > 0 treats a hit at position 0 as a miss: a
+// null-terminated string that is empty comes back as the whole padded field. Every comparison of an Index*/LastIndex* result with
+// the constants 0 and -1 in the module is one of the found / not-found forms.
+func searchResultTestRule(c *Ctx, r *Result, rule string, floor int) {
+	n := 0
+	for _, fn := range c.LibFuncs() {
+		if fn.Blocks == nil {
+			continue
+		}
+		k := 0
+		instrs(fn, func(in ssa.Instruction) {
+			call, ok := in.(*ssa.Call)
+			if !ok {
+				return
+			}
+			f := call.Call.StaticCallee()
+			if f == nil || f.Pkg == nil || (f.Pkg.Pkg.Path() != "bytes" && f.Pkg.Pkg.Path() != "strings") || !(strings.HasPrefix(f.Name(), "Index") || strings.HasPrefix(f.Name(), "LastIndex")) {
+				return
+			}
+			for _, ref := range *call.Referrers() {
+				cmp, isC := ref.(*ssa.BinOp)
+				if !isC {
+					continue
+				}
+				var kk int64
+				var isK bool
+				op := cmp.Op
+				if cmp.X == ssa.Value(call) {
+					kk, isK = constInt(cmp.Y)
+				} else {
+					kk, isK = constInt(cmp.X)
+					switch op {
+					case token.LSS:
+						op = token.GTR
+					case token.GTR:
+						op = token.LSS
+					case token.LEQ:
+						op = token.GEQ
+					case token.GEQ:
+						op = token.LEQ
+					}
+				}
+				if !isK || (kk != 0 && kk != -1) {
+					continue
+				}
+				switch op {
+				case token.LSS, token.GTR, token.LEQ, token.GEQ, token.EQL, token.NEQ:
+				default:
+					continue
+				}
+				n++
+				k++
+				if kk == 0 && (op == token.EQL || op == token.NEQ) {
+					continue // a test of the position itself (the separator is the first character)
+				}
+				good := (kk == 0 && (op == token.GEQ || op == token.LSS)) || (kk == -1 && (op == token.EQL || op == token.NEQ || op == token.GTR || op == token.LEQ))
+				r.Check(good, rule, fmt.Sprintf("%s#search-result-test-%d", c.Name(fn), k), c.InstrPos(cmp), fmt.Sprintf("the result of %s is compared with %s %d", f.Name(), op.String(), kk))
+			}
+		})
+	}
+	if n < floor {
+		r.Shortfall(c, rule, fmt.Sprintf("%s: only %d tests of search results found (expected >= %d)", rule, n, floor))
+	}
+}
+
+func init() {
+	registry["C06"].Meta.Rules["C06.18"] = "the result of a search is tested against 'not found', not against position 0: every comparison of a bytes/strings Index* result with 0 or -1 is one of >= 0, < 0, == -1, != -1, > -1, <= -1 (idx > 0 after IndexByte(data, 0) returns the whole padded field for an empty null-terminated string)"
+	registry["C06"].Rules = append(registry["C06"].Rules, func(c *Ctx, r *Result) { searchResultTestRule(c, r, "C06.18", 1) })
+	registry["C06"].Meta.Rules["C06.19"] = registry["C09"].Meta.Rules["C09.8"] + " (shared with C09.8: the full-read assembler places chunks with the same stride tables)"
+	registry["C06"].Rules = append(registry["C06"].Rules, func(c *Ctx, r *Result) { aliasRule(c, r, "C09", c09strides, "C09.8", "C06.19") })
+}
